@@ -47,10 +47,11 @@ func analyseRangeLoop(f *ssa.Function, call ssa.Instruction, recv ssa.Value, isS
 			out.NoEarlyExit = false
 		}
 	}
-	var idx *ssa.BinOp
+	var idx ssa.Value
 	if ifi, ok := hdr.Instrs[len(hdr.Instrs)-1].(*ssa.If); ok {
 		if bo, ok := ifi.Cond.(*ssa.BinOp); ok && bo.Op == token.LSS {
 			if lc, ok := bo.Y.(*ssa.Call); ok && builtinName(&lc.Call) == "len" && isSlice(lc.Call.Args[0]) {
+				// (a) go/ssa range loop: idx = phi+1, phi starts at -1, back edges carry idx
 				if inc, ok := bo.X.(*ssa.BinOp); ok && inc.Op == token.ADD {
 					if one, ok := constInt(inc.Y); ok && one == 1 {
 						if ph, ok := inc.X.(*ssa.Phi); ok && ph.Block() == hdr {
@@ -69,6 +70,30 @@ func analyseRangeLoop(f *ssa.Function, call ssa.Instruction, recv ssa.Value, isS
 								idx = inc
 							}
 						}
+					}
+				}
+				// (b) classic index loop: idx = phi, starts at 0, back edges carry phi+1
+				if ph, ok := bo.X.(*ssa.Phi); ok && ph.Block() == hdr {
+					good := true
+					for k, e := range ph.Edges {
+						if !hdr.Dominates(hdr.Preds[k]) {
+							if v, ok := constInt(e); !ok || v != 0 {
+								good = false
+							}
+						} else {
+							inc, ok := e.(*ssa.BinOp)
+							one, isOne := int64(0), false
+							if ok {
+								one, isOne = constInt(inc.Y)
+							}
+							if !ok || inc.Op != token.ADD || inc.X != ssa.Value(ph) || !isOne || one != 1 {
+								good = false
+							}
+						}
+					}
+					if good {
+						out.RangeAll = true
+						idx = ph
 					}
 				}
 			}
@@ -91,7 +116,7 @@ func analyseRangeLoop(f *ssa.Function, call ssa.Instruction, recv ssa.Value, isS
 		}
 	}
 	if u, ok := recv.(*ssa.UnOp); ok && u.Op == token.MUL {
-		if ia, ok := u.X.(*ssa.IndexAddr); ok && isSlice(ia.X) && idx != nil && ia.Index == ssa.Value(idx) {
+		if ia, ok := u.X.(*ssa.IndexAddr); ok && isSlice(ia.X) && idx != nil && ia.Index == idx {
 			out.Element = true
 		}
 	}
